@@ -64,6 +64,7 @@ class Site:
         self.expr, self.kind, self.origin = expr, kind, origin
         self.befores: set[str] = set()
         self.afters: set[str] = set()
+        self.types: list[str] = []
 
 
 class AV:
@@ -248,9 +249,53 @@ def guard_of(test) -> dict:
     return out
 
 
+# origins that the API declares to be str (a non-str alias / key / field name is outside the property)
+STR_ORIGINS = {"field alias", "Config.aliases value", "TypedDict key", "discriminator field", "enum member name",
+               "Annotated Alias name", "alias"}
+_TY = {"str": "TStr", "bytes": "TBytes", "int": "TInt", "bool": "TBool", "NoneType": "TNone", "tuple": "TTuple"}
+
+
+_SUB = {"TStr": "TStrSub", "TBytes": "TBytesSub", "TInt": "TIntSub"}   # bool / NoneType cannot be subclassed
+
+
+def _ty_names(node, exact: bool) -> list:
+    """exact: `type(X) in (...)` - exactly these types; otherwise isinstance(): subclasses too"""
+    elts = node.elts if isinstance(node, (ast.Tuple, ast.List, ast.Set)) else [node]
+    out = []
+    for e in elts:
+        nm = e.id if isinstance(e, ast.Name) else (e.attr if isinstance(e, ast.Attribute) else None)
+        t = _TY.get(nm, "TFloat?" if nm == "float" else "TAny")
+        out.append(t if exact else _SUB.get(t, t))
+    return out
+
+
+def type_guard_of(test) -> dict:
+    """{expr text: [vty names]} from `isinstance(X, T)`, `isinstance(X, (T1, ..))`, `type(X) in (T1, ..)`;
+    float counts as TFloat only together with `not math.isnan(X)` and `not math.isinf(X)` (finite)."""
+    conj = test.values if isinstance(test, ast.BoolOp) and isinstance(test.op, ast.And) else [test]
+    out: dict = {}
+    notnan, notinf = set(), set()
+    for c in conj:
+        if isinstance(c, ast.Call) and isinstance(c.func, ast.Name) and c.func.id == "isinstance" and len(c.args) == 2:
+            out[ast.unparse(c.args[0])] = _ty_names(c.args[1], exact=False)
+        if isinstance(c, ast.Compare) and len(c.ops) == 1 and isinstance(c.ops[0], ast.In) and isinstance(c.left, ast.Call) \
+                and isinstance(c.left.func, ast.Name) and c.left.func.id == "type" and len(c.left.args) == 1:
+            out[ast.unparse(c.left.args[0])] = _ty_names(c.comparators[0], exact=True)
+        if isinstance(c, ast.UnaryOp) and isinstance(c.op, ast.Not) and isinstance(c.operand, ast.Call) and len(c.operand.args) == 1:
+            fn = getattr(c.operand.func, "attr", None) or getattr(c.operand.func, "id", None)
+            if fn == "isnan":
+                notnan.add(ast.unparse(c.operand.args[0]))
+            if fn == "isinf":
+                notinf.add(ast.unparse(c.operand.args[0]))
+    for x, tys in out.items():
+        out[x] = [("TFloat" if (x in notnan and x in notinf) else "TAny") if t == "TFloat?" else t for t in tys]
+    return out
+
+
 class Scanner:
     def __init__(self):
         self.guards: dict = {}
+        self.type_guards: dict = {}
         self.sites: dict[tuple, Site] = {}
         self.summ: dict[str, AV] = {}          # function name -> return AV
         self.funcs: dict[str, list] = {}       # name -> [(file, FunctionDef)]
@@ -271,6 +316,18 @@ class Scanner:
             s.func = self.func
             self.sites[k] = s
         s.round = self.round
+        if kind in ("KRepr", "KAscii"):
+            inner = expr[:-2] if expr.endswith(("!r", "!a")) else expr
+            if inner.startswith(("repr(", "ascii(", "literal_repr(")) and inner.endswith(")"):
+                inner = inner[inner.index("(") + 1:-1]
+            if inner.startswith(("map(repr, ", "map(ascii, ")):
+                inner = None
+            if origin in STR_ORIGINS:
+                s.types = ["TStr"]
+            elif inner is not None and inner in self.type_guards:
+                s.types = list(self.type_guards[inner])
+            else:
+                s.types = ["TAny"]
         return s
 
     # -- expressions
@@ -564,6 +621,14 @@ class Scanner:
                 return code("repr of library text")
             s = self.site(n, ast.unparse(n), "KRepr" if f.id == "repr" else "KAscii", a.note or a.o)
             return AV(QUOTED, lead=[s], trail=[s], note="repr()")
+        if isinstance(f, ast.Name) and f.id == "literal_repr" and len(args) == 1 and literal_repr_ok():
+            # base.__repr__(value): the repr of the builtin base type, whatever the subclass overrides
+            a = flat(args[0])
+            if a.o == CODE:
+                return code("repr of library text")
+            s = self.site(n, "literal_repr(" + ast.unparse(n.args[0]) + ")", "KRepr", a.note or a.o)
+            s.types = [{"TStrSub": "TStr", "TBytesSub": "TBytes", "TIntSub": "TInt"}.get(t, t) for t in s.types]
+            return AV(QUOTED, lead=[s], trail=[s], note="literal_repr()")
         if isinstance(f, ast.Name) and f.id == "map" and len(n.args) == 2:
             fn = n.args[0]
             it = self.iter_item(args[1])
@@ -805,10 +870,11 @@ class Scanner:
         elif isinstance(s, ast.If):
             self.ev(s.test, env)
             e1, e2 = dict(env), dict(env)
-            saved_guards = self.guards
+            saved_guards, saved_tg = self.guards, self.type_guards
             self.guards = {**saved_guards, **guard_of(s.test)}
+            self.type_guards = {**saved_tg, **type_guard_of(s.test)}
             self.block(s.body, e1)
-            self.guards = saved_guards
+            self.guards, self.type_guards = saved_guards, saved_tg
             self.block(s.orelse, e2)
             env.clear()
             env.update(e1)
@@ -952,6 +1018,95 @@ class Scanner:
         return id(node) in self._print_cache[key]
 
 
+_TUPLE_BODY = ast.dump(ast.parse(
+    "items = [self.get_field_default_literal(item) for item in value]\n"
+    "if len(items) == 1:\n    return f\"({items[0]},)\"\n"
+    "return f\"({', '.join(items)})\"\n").body and ast.Module(body=ast.parse(
+        "items = [self.get_field_default_literal(item) for item in value]\n"
+        "if len(items) == 1:\n    return f\"({items[0]},)\"\n"
+        "return f\"({', '.join(items)})\"\n").body, type_ignores=[]))
+_IMPORT_BODY = ast.dump(ast.Module(body=ast.parse(
+    "name = f\"v_{uuid.uuid4().hex}\"\nself.ensure_object_imported(value, name)\nreturn name\n").body, type_ignores=[]))
+
+
+_LITERAL_REPR = ast.dump(ast.parse(
+    "def literal_repr(value):\n    for base in (bool, int, str, bytes):\n        if isinstance(value, base):\n"
+    "            return base.__repr__(value)\n    return repr(value)\n").body[0].body and ast.Module(body=ast.parse(
+        "for base in (bool, int, str, bytes):\n    if isinstance(value, base):\n        return base.__repr__(value)\nreturn repr(value)\n").body,
+        type_ignores=[]))
+
+
+def literal_repr_ok() -> bool:
+    """helpers.literal_repr exists and its body is the expected one (docstring/annotations ignored)"""
+    try:
+        t = ast.parse(open(os.path.join(REPO, "mashumaro/core/meta/helpers.py")).read())
+    except OSError:
+        return False
+    for n in t.body:
+        if isinstance(n, ast.FunctionDef) and n.name == "literal_repr" and [a.arg for a in n.args.args] == ["value"]:
+            body = n.body
+            if body and isinstance(body[0], ast.Expr) and isinstance(body[0].value, ast.Constant):
+                body = body[1:]
+            return ast.dump(ast.Module(body=body, type_ignores=[])) == _LITERAL_REPR
+    return False
+
+
+def default_literal_branches() -> list:
+    """The if/elif chain of CodeBuilder.get_field_default_literal as (guard, action) pairs; anything
+    that is not one of the recognised shapes becomes GUnknown / AUnknown (fail closed)."""
+    src = open(os.path.join(REPO, FILES[0])).read()
+    fd = None
+    for n in ast.walk(ast.parse(src)):
+        if isinstance(n, ast.FunctionDef) and n.name == "get_field_default_literal":
+            fd = n
+    if fd is None or [a.arg for a in fd.args.args] != ["self", "value"]:
+        return [("GUnknown", "AUnknown")]
+
+    def guard(test) -> str:
+        t = ast.unparse(test)
+        if t == "isinstance(value, enum.IntFlag)":
+            return "GIntFlag"
+        tg = type_guard_of(test)
+        if isinstance(test, ast.Compare) and "value" in tg and len(tg) == 1:
+            return "(GTypeIn [" + "; ".join(tg["value"]) + "])"
+        if t == "isinstance(value, float) and (not math.isnan(value)) and (not math.isinf(value))" and tg.get("value") == ["TFloat"]:
+            return "GFiniteFloat"
+        if t == "isinstance(value, tuple) and (not is_named_tuple(type(value)))":
+            return "GPlainTuple"
+        return "GUnknown"
+
+    def action(body) -> str:
+        d = ast.dump(ast.Module(body=body, type_ignores=[]))
+        if len(body) == 1 and isinstance(body[0], ast.Return):
+            r = ast.unparse(body[0].value)
+            if r == "str(value.value)":
+                return "AStrIntValue"
+            if r == "repr(value)":
+                return "ARepr"
+        if d == _TUPLE_BODY:
+            return "ATupleElementwise"
+        if d == _IMPORT_BODY:
+            return "AImportByName"
+        return "AUnknown"
+
+    out = []
+    body = fd.body
+    # skip a docstring
+    if body and isinstance(body[0], ast.Expr) and isinstance(body[0].value, ast.Constant):
+        body = body[1:]
+    if len(body) != 1 or not isinstance(body[0], ast.If):
+        return [("GUnknown", "AUnknown")]
+    node = body[0]
+    while True:
+        out.append((guard(node.test), action(node.body)))
+        if len(node.orelse) == 1 and isinstance(node.orelse[0], ast.If):
+            node = node.orelse[0]
+            continue
+        out.append(("GElse", action(node.orelse)) if node.orelse else ("GUnknown", "AUnknown"))
+        break
+    return out
+
+
 def coq_string(s: str) -> str:
     if all(32 <= ord(c) < 127 and c != '"' for c in s):
         return '"' + s + '"'
@@ -977,7 +1132,7 @@ def gen() -> str:
     rs = rows(sc)
     lines = ["(* GENERATED by tools/kernels/k10_splices.py from " + ", ".join(FILES) + " - do not edit *)",
              "From Coq Require Import List String Ascii NArith Bool.",
-             "From Verif Require Import Wire PyStrLit Splice.",
+             "From Verif Require Import Wire PyStrLit Splice DefaultLit.",
              "Import ListNotations.",
              "Open Scope string_scope.",
              "",
@@ -986,13 +1141,17 @@ def gen() -> str:
              "  ["]
     items = []
     for s, b, a in rs:
-        items.append("   mk_site %s %d %s %s %s %s %s %s" % (
+        items.append("   mk_site %s %d %s %s %s %s [%s] %s %s" % (
             coq_string(s.file.split("/")[-1]), s.line, coq_string(s.func), coq_string(s.expr[:80]),
-            coq_string((s.origin or "")[:60]), s.kind, coq_string(b), coq_string(a)))
+            coq_string((s.origin or "")[:60]), s.kind, "; ".join(s.types), coq_string(b), coq_string(a)))
     lines.append(";\n".join(items))
     lines.append("  ].")
     lines.append("")
     lines.append(f"Definition k10_formatted_values_total : nat := {sc.total_fv}.")
+    lines.append("")
+    lines.append("(* CodeBuilder.get_field_default_literal: its if/elif chain *)")
+    lines.append("Definition default_literal_branches : list (dguard * daction) :=")
+    lines.append("  [" + "; ".join(f"({g}, {a})" for g, a in default_literal_branches()) + "].")
     return "\n".join(lines) + "\n"
 
 
@@ -1003,7 +1162,7 @@ def report() -> dict:
     return {
         "counts": sc.counts, "excluded_in_raise": sc.excluded, "total_formatted_values": sc.total_fv,
         "sites": [{"file": s.file, "line": s.line, "func": s.func, "expr": s.expr, "kind": s.kind, "origin": s.origin,
-                   "before": b, "after": a} for s, b, a in rs],
+                   "types": s.types, "before": b, "after": a} for s, b, a in rs],
         "code_exprs": sc.code_exprs,
     }
 
@@ -1012,7 +1171,8 @@ if __name__ == "__main__":
     import json
     r = report()
     for s in r["sites"]:
-        print(s["kind"], s["file"].split("/")[-1], s["line"], s["func"], "|", s["expr"], "|", s["origin"], "|", repr(s["before"][-30:]), repr(s["after"][:20]))
+        print(s["kind"], s["file"].split("/")[-1], s["line"], s["func"], "|", s["expr"], "|", s["origin"], "|", ",".join(s["types"]), "|", repr(s["before"][-30:]), repr(s["after"][:20]))
+    print(default_literal_branches())
     print(r["counts"], "excluded", r["excluded_in_raise"], "total", r["total_formatted_values"])
     if "-v" in sys.argv:
         for k, v in sorted(r["code_exprs"].items()):
